@@ -32,8 +32,34 @@ type jgCase struct {
 	Src    string  `json:"src,omitempty"`
 }
 
+// the blank runs of JsonGen!BlankRuns (read from the specification in runC03; the first seven are also the defaults
+// for replaying old case files)
 var jgLayouts = []struct{ name, ws string }{
 	{"none", ""}, {"space", " "}, {"tab", "\t"}, {"lf", "\n"}, {"crlf", "\r\n"}, {"cr", "\r"}, {"mixed", " \n\t"},
+	{"sp+sp", "  "}, {"tab+tab+tab", "\t\t\t"}, {"sp+tab+sp", " \t "}, {"sp+sp+sp+sp+sp+sp+sp+sp", "        "}, {"lf+lf", "\n\n"}, {"cr+lf+sp+sp", "\r\n  "},
+}
+
+func jgSetLayouts(runs [][]string) error {
+	b := map[string]string{"sp": " ", "tab": "\t", "lf": "\n", "cr": "\r"}
+	if len(runs) < 7 {
+		return fmt.Errorf("JsonGen!BlankRuns has %d runs", len(runs))
+	}
+	for i, r := range runs {
+		ws := ""
+		for _, x := range r {
+			if b[x] == "" {
+				return fmt.Errorf("unknown blank %q in JsonGen!BlankRuns", x)
+			}
+			ws += b[x]
+		}
+		if i < len(jgLayouts) && jgLayouts[i].ws != ws {
+			return fmt.Errorf("JsonGen!BlankRuns[%d] = %q differs from the harness default %q", i+1, ws, jgLayouts[i].ws)
+		}
+		if i >= len(jgLayouts) {
+			jgLayouts = append(jgLayouts, struct{ name, ws string }{strings.Join(r, "+"), ws})
+		}
+	}
+	return nil
 }
 
 var nonASCII = strings.NewReplacer("<NONASCII-1>", "é日本", "<NONASCII-2>", "ключ", "<DEL>", "\x7f")
@@ -279,8 +305,9 @@ func runC03(c *core.Ctx) error {
 	for _, cf := range []string{cfg, "JsonGen_wide.cfg"} {
 		res, err := tlc.Run(tlc.Opts{Module: "JsonGen", Cfg: cf, Workers: 16, Files: files, Timeout: 0, HeapGB: 12, OnLine: func(l string) {
 			var r struct {
-				Toks  []jgTok `json:"toks"`
-				Sizes []int   `json:"sizes"`
+				Toks   []jgTok    `json:"toks"`
+				Sizes  []int      `json:"sizes"`
+				Blanks [][]string `json:"blanks"`
 			}
 			if err := json.Unmarshal([]byte(l), &r); err != nil {
 				c.InfraError("bad doc %s: %v", l, err)
@@ -288,6 +315,9 @@ func runC03(c *core.Ctx) error {
 			}
 			if len(r.Sizes) > 0 {
 				sizes = r.Sizes
+				if err := jgSetLayouts(r.Blanks); err != nil {
+					c.InfraError("%v", err)
+				}
 				return
 			}
 			docs = append(docs, r.Toks)
